@@ -226,4 +226,5 @@ func (d *kvDriver[K]) runFamily(large int) {
 		d.m.Clear()
 		d.smallRandom(r.Range(5, 30))
 	}
+	d.m.Final()
 }
